@@ -147,6 +147,7 @@ class _Normalizer:
                 self._each_function(m, self._fuse_in_function)
                 if self.stats['inlined_calls'] + self.stats.get('fused_generators', 0) == before:
                     break
+            self._each_function(m, self._iteration_idioms)
             self._each_function(m, self._yield_from)
             self._each_function(m, self._generator_form)
             self._each_function(m, self._augment_function)
@@ -1369,6 +1370,17 @@ class _Normalizer:
                             binds.append(ast.Assign(targets=[ast.Name(id=p_, ctx=ast.Store())], value=a_))
                         new_tail = binds + copy.deepcopy(_body(g))
                         fnode.body = [st for st in fnode.body if st is not g]
+        if new_tail is None and isinstance(v, ast.Call):
+            # ``return _helper_generator(args)``: the same with a generator that is a helper function / method of its own
+            h = self._helper_of(v, cls)
+            if h is not None and h[0].node is not fnode and any(isinstance(n, ast.Yield) for n in ast.walk(h[0].node)) \
+                    and not any(isinstance(n, (ast.Return, ast.YieldFrom)) for n in ast.walk(h[0].node)):
+                a_ = h[0].node.args
+                if not (a_.vararg or a_.kwarg or a_.kwonlyargs or a_.posonlyargs):
+                    exp = self._expand(h[0], h[1], v, allow_yield=True)
+                    if exp is not None:
+                        new_tail = exp[0]
+                        self.inlined.append(('%s:%s' % (self.m.name, fnode.name), h[0].key, id(fnode)))
         if new_tail is None:
             return
         for st in new_tail:
@@ -1376,6 +1388,162 @@ class _Normalizer:
             ast.fix_missing_locations(st)
         fnode.body = [st for st in fnode.body if st is not ret] + new_tail
         self.stats['generator_forms'] = self.stats.get('generator_forms', 0) + 1
+
+    # ------------------------------------------------------------------ 1f. iterator idioms as loops
+    def _iteration_idioms(self, fnode, cls, local):
+        """One form -- the explicit loop -- for:
+
+        * ``x = next((E for v in S if C), D)`` -> ``for v' in S: if C: x = E; break`` / ``else: x = D`` (first match);
+        * the statement ``d.update((K, V) for v in S)`` / ``d.update({K: V for v in S})`` -> ``for v' in S: d[K] = V``;
+        * ``for i, x in enumerate(S[, n])`` -> a counter: ``i' = n`` before, ``i = i'; i' += 1`` first in the body.
+        Comprehension variables get fresh names (they did not leak before)."""
+        me = self
+
+        def fresh(names):
+            me.counter += 1
+            return {n: '__c%d_%s' % (me.counter, n) for n in names}
+
+        def rename(node, mapping):
+            class R(ast.NodeTransformer):
+                def visit_Name(self_, n):
+                    if n.id in mapping:
+                        return ast.copy_location(ast.Name(id=mapping[n.id], ctx=n.ctx), n)
+                    return n
+            return R().visit(copy.deepcopy(node))
+
+        def comp_loop(gens, inner):
+            """nest ``inner`` (list of statements) under the for / if structure of the comprehension generators"""
+            for g in reversed(gens):
+                for cond in reversed(g.ifs):
+                    inner = [ast.If(test=cond, body=inner, orelse=[])]
+                inner = [ast.For(target=g.target, iter=g.iter, body=inner, orelse=[])]
+            return inner
+
+        def do_stmt(st):
+            # first match
+            if isinstance(st, ast.Assign) and len(st.targets) == 1 and isinstance(st.targets[0], ast.Name) \
+                    and isinstance(st.value, ast.Call) and isinstance(st.value.func, ast.Name) and st.value.func.id == 'next' \
+                    and 'next' not in local and len(st.value.args) == 2 and not st.value.keywords \
+                    and isinstance(st.value.args[0], ast.GeneratorExp) and len(st.value.args[0].generators) == 1 \
+                    and not st.value.args[0].generators[0].is_async and _is_simple_or_const(st.value.args[1]):
+                ge = st.value.args[0]
+                g = ge.generators[0]
+                tnames = {n.id for n in ast.walk(g.target) if isinstance(n, ast.Name)}
+                mp = fresh(tnames)
+                x = st.targets[0].id
+                hit = [ast.Assign(targets=[ast.Name(id=x, ctx=ast.Store())], value=rename(ge.elt, mp)), ast.Break()]
+                body = hit
+                for cond in reversed(g.ifs):
+                    body = [ast.If(test=rename(cond, mp), body=body, orelse=[])]
+                loop = ast.For(target=rename(g.target, mp), iter=g.iter, body=body,
+                               orelse=[ast.Assign(targets=[ast.Name(id=x, ctx=ast.Store())], value=st.value.args[1])])
+                me.stats['iteration_idioms'] = me.stats.get('iteration_idioms', 0) + 1
+                return [loop]
+            # d.update(pairs)
+            if isinstance(st, ast.Expr) and isinstance(st.value, ast.Call) and isinstance(st.value.func, ast.Attribute) \
+                    and st.value.func.attr == 'update' and len(st.value.args) == 1 and not st.value.keywords \
+                    and _is_simple(st.value.func.value):
+                a = st.value.args[0]
+                d = st.value.func.value
+                key = val = gens = None
+                if isinstance(a, (ast.GeneratorExp, ast.ListComp)) and isinstance(a.elt, ast.Tuple) and len(a.elt.elts) == 2:
+                    key, val, gens = a.elt.elts[0], a.elt.elts[1], a.generators
+                elif isinstance(a, ast.DictComp):
+                    key, val, gens = a.key, a.value, a.generators
+                if gens is not None and not any(g.is_async for g in gens):
+                    tnames = {n.id for g in gens for n in ast.walk(g.target) if isinstance(n, ast.Name)}
+                    mp = fresh(tnames)
+                    store = ast.Assign(targets=[ast.Subscript(value=copy.deepcopy(d), slice=rename(key, mp), ctx=ast.Store())],
+                                       value=rename(val, mp))
+                    gens2 = [ast.comprehension(target=rename(g.target, mp), iter=rename(g.iter, mp) if i else g.iter,
+                                               ifs=[rename(c, mp) for c in g.ifs], is_async=0) for i, g in enumerate(gens)]
+                    me.stats['iteration_idioms'] = me.stats.get('iteration_idioms', 0) + 1
+                    return comp_loop(gens2, [store])
+            # enumerate
+            if isinstance(st, ast.For) and isinstance(st.iter, ast.Call) and isinstance(st.iter.func, ast.Name) \
+                    and st.iter.func.id == 'enumerate' and 'enumerate' not in local and 1 <= len(st.iter.args) <= 2 \
+                    and not st.iter.keywords and isinstance(st.target, ast.Tuple) and len(st.target.elts) == 2 \
+                    and isinstance(st.target.elts[0], ast.Name):
+                start = st.iter.args[1] if len(st.iter.args) == 2 else ast.Constant(value=0)
+                if isinstance(start, ast.Constant) and isinstance(start.value, int):
+                    i = st.target.elts[0].id
+                    me.counter += 1
+                    ctr = '__n%d_%s' % (me.counter, i)
+                    init = ast.Assign(targets=[ast.Name(id=ctr, ctx=ast.Store())], value=ast.Constant(value=start.value))
+                    inc = ast.AugAssign(target=ast.Name(id=ctr, ctx=ast.Store()), op=ast.Add(), value=ast.Constant(value=1))
+                    bind = ast.Assign(targets=[ast.Name(id=i, ctx=ast.Store())], value=ast.Name(id=ctr, ctx=ast.Load()))
+                    st.target = st.target.elts[1]
+                    st.iter = st.iter.args[0]
+                    st.body = [bind, inc] + st.body
+                    me.stats['iteration_idioms'] = me.stats.get('iteration_idioms', 0) + 1
+                    return [init, st]
+            return [st]
+
+        def accumulation(prev, st):
+            """``x = []`` followed directly by ``for v in S: [if C:] x.append(E)`` (nothing else in the loop, x not read in
+            S / C / E) -> ``x = [E for v in S if C]``"""
+            if not (isinstance(prev, ast.Assign) and len(prev.targets) == 1 and isinstance(prev.targets[0], ast.Name)
+                    and ((isinstance(prev.value, ast.List) and not prev.value.elts) or
+                         (isinstance(prev.value, ast.Call) and isinstance(prev.value.func, ast.Name) and prev.value.func.id == 'list'
+                          and not prev.value.args and not prev.value.keywords))):
+                return None
+            x = prev.targets[0].id
+            if not (isinstance(st, ast.For) and not st.orelse and len(st.body) == 1):
+                return None
+            inner, cond = st.body[0], None
+            if isinstance(inner, ast.If) and not inner.orelse and len(inner.body) == 1:
+                inner, cond = inner.body[0], inner.test
+            if not (isinstance(inner, ast.Expr) and isinstance(inner.value, ast.Call) and isinstance(inner.value.func, ast.Attribute)
+                    and inner.value.func.attr == 'append' and isinstance(inner.value.func.value, ast.Name)
+                    and inner.value.func.value.id == x and len(inner.value.args) == 1 and not inner.value.keywords):
+                return None
+            elt = inner.value.args[0]
+            for part in [st.iter, elt] + ([cond] if cond is not None else []):
+                if any(isinstance(n, ast.Name) and n.id == x for n in ast.walk(part)) or _has_yield(part):
+                    return None
+            tn = {n.id for n in ast.walk(st.target) if isinstance(n, ast.Name)}
+            # the loop variable must not be used after the loop (a comprehension does not leak it)
+            later = False
+            seen = False
+            for n in ast.walk(fnode):
+                if n is st:
+                    seen = True
+            uses_after = [n for n in ast.walk(fnode) if isinstance(n, ast.Name) and n.id in tn and isinstance(n.ctx, ast.Load)
+                          and getattr(n, 'lineno', 0) > getattr(st, 'end_lineno', getattr(st, 'lineno', 0))]
+            if uses_after:
+                return None
+            comp = ast.ListComp(elt=elt, generators=[ast.comprehension(target=st.target, iter=st.iter,
+                                                                       ifs=[cond] if cond is not None else [], is_async=0)])
+            me.stats['iteration_idioms'] = me.stats.get('iteration_idioms', 0) + 1
+            return ast.Assign(targets=[ast.Name(id=x, ctx=ast.Store())], value=comp)
+
+        def walk_body(body):
+            out = []
+            for st in body:
+                if isinstance(st, (ast.FunctionDef, ast.AsyncFunctionDef, ast.ClassDef)):
+                    out.append(st)
+                    continue
+                for fld in ('body', 'orelse', 'finalbody'):
+                    v = getattr(st, fld, None)
+                    if isinstance(v, list) and v and isinstance(v[0], ast.stmt):
+                        setattr(st, fld, walk_body(v))
+                if isinstance(st, ast.Try):
+                    for h in st.handlers:
+                        h.body = walk_body(h.body)
+                if out:
+                    acc = accumulation(out[-1], st)
+                    if acc is not None:
+                        ast.copy_location(acc, out[-1])
+                        ast.fix_missing_locations(acc)
+                        out[-1] = acc
+                        continue
+                new = do_stmt(st)
+                for x in new:
+                    ast.copy_location(x, st)
+                    ast.fix_missing_locations(x)
+                out.extend(new)
+            return out
+        fnode.body = walk_body(fnode.body)
 
     # ------------------------------------------------------------------ 1b. x = x + e  ->  x += e
     def _augment_function(self, fnode, cls, local):
@@ -1389,6 +1557,16 @@ class _Normalizer:
                             and isinstance(st.value, ast.BinOp) and isinstance(st.value.op, (ast.Add, ast.Sub, ast.Mult)) \
                             and isinstance(st.value.left, ast.Name) and st.value.left.id == st.targets[0].id:
                         aug = ast.AugAssign(target=ast.Name(id=st.targets[0].id, ctx=ast.Store()), op=st.value.op, value=st.value.right)
+                        ast.copy_location(aug, st)
+                        ast.fix_missing_locations(aug)
+                        body[i] = aug
+                    elif isinstance(st, ast.Assign) and len(st.targets) == 1 and isinstance(st.targets[0], ast.Attribute) \
+                            and _is_simple(st.targets[0]) and isinstance(st.value, ast.BinOp) \
+                            and isinstance(st.value.op, (ast.Add, ast.Sub, ast.Mult)) and isinstance(st.value.left, ast.Attribute) \
+                            and ast.unparse(st.value.left) == ast.unparse(st.targets[0]):
+                        # ``o.a = o.a + e`` with ``o`` a plain name / attribute chain
+                        tgt = copy.deepcopy(st.targets[0])
+                        aug = ast.AugAssign(target=tgt, op=st.value.op, value=st.value.right)
                         ast.copy_location(aug, st)
                         ast.fix_missing_locations(aug)
                         body[i] = aug
@@ -1957,6 +2135,10 @@ def _is_simple(e: ast.expr) -> bool:
     while isinstance(e, ast.Attribute):
         e = e.value
     return isinstance(e, (ast.Name, ast.Constant))
+
+
+def _is_simple_or_const(e) -> bool:
+    return isinstance(e, ast.Constant) or _is_simple(e)
 
 
 def _has_yield(e) -> bool:
